@@ -119,18 +119,33 @@ def classify_refusal(e):
     return 'pass_limit' if 'Excessive loop count' in str(e) else type(e).__name__
 
 
-def run_order(run, plan, bo, wo, hist, stats, meta):
+def run_order(run, plan, bo, wo, hist, stats, meta, late=None):
     """one (plan, block order, wire order): build, monitors 1, 3 (and 4 for the accept side); returns the list of
-    wire-value snapshots (construction + one per cycle) or None when the case was refused / violated."""
-    case = dict(plan=plan, block_order=bo, wire_order=wo, inputs=hist, meta=meta)
-    b = netgen.build(plan, bo, wo)
-    leaves, succ = netgen.leaf_graph(b.hw)
-    inv = netgen.inversions(leaves, succ)
-    cyc = netgen.comb_cycles(b.hw)
-    if hist and hist[0]:
-        b.poke(hist[0])
+    wire-value snapshots (construction + one per cycle) or None when the case was refused / violated.
+    late=k: getSimulator() is called a first time after k blocks exist; the others are late additions that the second
+    getSimulator() must schedule (HWSystem.getSimulator re-sorts on every call)."""
+    case = dict(plan=plan, block_order=bo, wire_order=wo, inputs=hist, meta=meta, late=late)
     snaps = []
     with hooks.install(keep_events=False) as rec:
+        early = []
+
+        def on_pause(bb):
+            try:
+                with muted():
+                    bb.hw.getSimulator()
+            except Exception as e:
+                early.append(e)
+        b = netgen.build(plan, bo, wo, pause_at=late, on_pause=on_pause if late is not None else None)
+        leaves, succ = netgen.leaf_graph(b.hw)
+        inv = netgen.inversions(leaves, succ)
+        cyc = netgen.comb_cycles(b.hw)
+        if early and not cyc:
+            run.ev()
+            run.violation('acyclic_refused', dict(reason=classify_refusal(early[0]), shape='partial', n_gt_1000=False), case, observed=repr(early[0])[:200],
+                          what='partial (acyclic) netlist refused by the early getSimulator(): %r' % early[0])
+            return ('refused', inv, cyc)
+        if hist and hist[0]:
+            b.poke(hist[0])
         try:
             sim = b.simulator()
         except Exception as e:
@@ -146,18 +161,22 @@ def run_order(run, plan, bo, wo, hist, stats, meta):
         run.ev()
         if cyc:
             sizes = sorted(len(c) for c in cyc)
-            via_box = any(type(p).__name__ == 'Box' for c in cyc for l in c for p in [l.parent])
+            via_box = any(type(l.parent).__name__ == 'Box' for c in cyc for l in c)
             if sizes[-1] == 1:
                 run.violation('selfloop_accepted', dict(scc_size=1), case, expected='getSimulator() raises', observed='simulator created',
-                              what='combinational self-loop of %s accepted%s' % (cyc[0][0].getFullPath(), ' (through a structural wrapper)' if via_box else ''))
+                              what='combinational self-loop of %s accepted%s' % (cyc[0][0].getFullPath(), ' (leaf inside a structural wrapper)' if via_box else ''))
             else:
                 run.violation('cycle_accepted', dict(scc_size=sizes[-1]), case, expected='getSimulator() raises', observed='simulator created',
                               what='combinational cycle over %d leaves accepted' % sizes[-1])
             stats['cyclic_accepted'] = stats.get('cyclic_accepted', 0) + 1
             return ('accepted_cyclic', inv, cyc)
         ok = schedule_check(run, b, sim, leaves, succ, case, stats)
-        ok = fixpoint_check(run, sim, 'construct', case, stats) and ok
-        snaps.append(netgen.wire_values(b.hw))
+        if late is None:
+            ok = fixpoint_check(run, sim, 'construct', case, stats) and ok
+            snaps.append(netgen.wire_values(b.hw))
+        else:
+            stats['late_addition_cases'] = stats.get('late_addition_cases', 0) + 1
+            snaps.append(None)      # a second getSimulator() only re-sorts; values are judged after the next clk()
         for vals in hist[1:]:
             b.poke(vals)
             try:
@@ -170,7 +189,7 @@ def run_order(run, plan, bo, wo, hist, stats, meta):
             snaps.append(netgen.wire_values(b.hw))
         for k in ('construct:propagate', 'pre:propagate', 'propagating:propagate', 'clocking:clock', 'construct:sort'):
             stats['ev_' + k] = stats.get('ev_' + k, 0) + rec.phase_counts.get(k, 0)
-        if leaves and rec.phase_counts.get('construct:propagate', 0) == 0:
+        if leaves and late is None and rec.phase_counts.get('construct:propagate', 0) == 0:
             stats['no_propagate_at_construct'] = stats.get('no_propagate_at_construct', 0) + 1
     return ('ok' if ok else 'violated', inv, snaps)
 
@@ -197,6 +216,8 @@ def check_plan(run, plan, rnd, k_orders, m_cycles, stats, meta, exhaustive_max=5
     ref = r0[2]
     border = netgen.orders(bids, rnd, k_orders, exhaustive_max)
     cases = [(bo, wids, 'blocks') for bo in border[1:]]
+    if len(bids) >= 2:
+        cases.append((border[min(2, len(border) - 1)], wids, 'late'))
     if wire_perms:
         for wo in netgen.orders(wids, rnd, 3, 0)[1:]:
             cases.append((bids, wo, 'wires'))
@@ -206,7 +227,8 @@ def check_plan(run, plan, rnd, k_orders, m_cycles, stats, meta, exhaustive_max=5
     for bo, wo, which in cases:
         if run.too_many:
             break
-        r = run_order(run, plan, bo, wo, hist, stats, meta)
+        lk = rnd.randint(1, len(bids) - 1) if which == 'late' else None
+        r = run_order(run, plan, bo, wo, hist, stats, meta, late=lk)
         stats['orders'] = stats.get('orders', 0) + 1
         if r[1] > 0:
             run.nt(stable_hash([ph, bo, wo]))
@@ -216,12 +238,14 @@ def check_plan(run, plan, rnd, k_orders, m_cycles, stats, meta, exhaustive_max=5
             continue
         snaps = r[2]
         for t, (a, c) in enumerate(zip(ref, snaps)):
+            if c is None:
+                continue
             run.ev()
             stats['snapshots_compared'] = stats.get('snapshots_compared', 0) + 1
             if a != c:
                 diff = sorted(k for k in set(a) | set(c) if a.get(k) != c.get(k))[:6]
                 run.violation('order_dependent_values', dict(when='construct' if t == 0 else 'after_clk', perm=which),
-                              dict(plan=plan, block_order=bo, wire_order=wo, inputs=hist, meta=meta),
+                              dict(plan=plan, block_order=bo, wire_order=wo, inputs=hist, meta=meta, late=lk),
                               expected={k: a.get(k) for k in diff}, observed={k: c.get(k) for k in diff},
                               what='wire values differ from the identity order at step %d (%s permuted): %s' % (t, which, diff[:3]))
                 break
@@ -262,14 +286,14 @@ def run_check(run, tier, seed, shard):
     quick = tier == 'quick'
     stats = {}
     t0 = time.time()
-    budget = 75 if quick else 780
+    budget = 400 if quick else 2400
     deadline = t0 + budget
 
     # 1. random DAGs x orders
-    n_dags = 320 if quick else 8000
+    n_dags = 320 if quick else 16000
     idx = shard_slice(range(n_dags), shard)
     for i in idx:
-        if time.time() > deadline - (budget * 0.45) or run.too_many:
+        if time.time() > deadline or run.too_many:
             stats['dags_skipped_time'] = stats.get('dags_skipped_time', 0) + 1
             continue
         rnd = rng(seed, 'C04', 'dag', i)
@@ -327,7 +351,7 @@ def run_check(run, tier, seed, shard):
             continue
         rnd = rng(seed, 'C04', 'cyc', i)
         kind = kinds[i % len(kinds)]
-        base = netgen.gen_dag(rnd, rnd.randint(2, 7) if quick else rnd.randint(2, 14), prim_only=(i % 2 == 0), n_regs=rnd.randint(0, 2), n_boxes=rnd.randint(0, 2), max_leaves=8, tier=tier)
+        base = netgen.gen_dag(rnd, rnd.randint(2, 7) if quick else rnd.randint(2, 10), prim_only=(i % 2 == 0), n_regs=rnd.randint(0, 2), n_boxes=rnd.randint(0, 2), max_leaves=8, tier=tier)
         check_cyclic(run, base, rnd, kind, stats, dict(kind='cyclic', index=i))
         stats['cyclic_plans'] = stats.get('cyclic_plans', 0) + 1
         if i < 2:
@@ -360,7 +384,7 @@ def post_merge(run, tier, seed):
 
 
 def replay(run, case):
-    c = case['case']
+    c = netgen.dehex(case['case'])
     plan = c['plan']
     stats = {}
     bids = [b['id'] for b in plan['blocks']]
@@ -368,13 +392,15 @@ def replay(run, case):
     hist = [{k: (int(v, 16) if isinstance(v, str) else v) for k, v in h.items()} for h in c.get('inputs', [{}])]
     meta = c.get('meta', {})
     n0 = len(run.violations) + sum(v[1] for v in run.known_hits.values())
-    r = run_order(run, plan, c.get('block_order', bids), c.get('wire_order', wids), hist, stats, meta)
+    r = run_order(run, plan, c.get('block_order', bids), c.get('wire_order', wids), hist, stats, meta, late=c.get('late'))
     print('replay: order under test ->', r[0], 'inverted edges', r[1])
     bad = len(run.violations) + sum(v[1] for v in run.known_hits.values()) > n0
     if r[0] == 'ok' and not plan.get('fault'):
         r0 = run_order(run, plan, bids, wids, hist, stats, meta)
-        if r0[0] == 'ok' and r0[2] != r[2]:
+        if r0[0] == 'ok' and [x for x, y in zip(r0[2], r[2]) if y is not None] != [y for y in r[2] if y is not None]:
             for t, (a, b_) in enumerate(zip(r0[2], r[2])):
+                if b_ is None:
+                    continue
                 diff = sorted(k for k in a if a[k] != b_.get(k))
                 if diff:
                     print('replay: step', t, 'differs from identity order on', [(k, a[k], b_.get(k)) for k in diff[:5]])
